@@ -48,11 +48,13 @@ Definition set_expo (b : book) (e : expo) : book :=
   book_upd b (bk_status b) (bk_partcnt b) (bk_queues b) (bk_parts b)
            (upd (expo_is (e_odds e) (e_part e)) e (bk_expo b))
            (upd (expo_is (e_odds e) (e_part e)) e (bk_expo_ix b)) (bk_hist b) (bk_pairs b).
-(* MoveToHistoricalParticipationExposure: historical set, both indexes removed *)
+(* MoveToHistoricalParticipationExposure: historical set (keyed by odds, index, round: a second move of
+   the same key overwrites), both indexes removed *)
 Definition move_to_hist (b : book) (e : expo) : book :=
   book_upd b (bk_status b) (bk_partcnt b) (bk_queues b) (bk_parts b)
            (remb (expo_is (e_odds e) (e_part e)) (bk_expo b))
-           (remb (expo_is (e_odds e) (e_part e)) (bk_expo_ix b)) (bk_hist b ++ [e]) (bk_pairs b).
+           (remb (expo_is (e_odds e) (e_part e)) (bk_expo_ix b))
+           (upd (fun h => expo_is (e_odds e) (e_part e) h && (e_round h =? e_round e)) e (bk_hist b)) (bk_pairs b).
 Definition get_queue (b : book) (o : Z) : option (list Z) :=
   match findb (fun q => fst q =? o) (bk_queues b) with Some q => Some (snd q) | None => None end.
 Definition set_queue (b : book) (o : Z) (q : list Z) : book :=
